@@ -4,6 +4,7 @@ import (
 	"bytes"
 	"errors"
 	"fmt"
+	"io"
 	"math"
 	"os"
 	"os/exec"
@@ -549,6 +550,20 @@ func streamHistories(rep *Report, tier string, seed uint64) {
 					}
 					if len(kept) < 2000 {
 						kept = append(kept, struct{ s, copy string }{got, string(append([]byte(nil), got...))})
+					}
+				}
+				// the bytes an F-variant hands to its destination stay intact while the destination
+				// itself prints (the printer may be back in the pool by then, its storage must not be)
+				for _, mk := range []func(w io.Writer) (int, error){
+					func(w io.Writer) (int, error) { return redact.Fprintf(w, "deliver %s %d", "payload‹x", round) },
+					func(w io.Writer) (int, error) { return redact.Fprint(w, "deliver", round, "payload") },
+				} {
+					var plain bytes.Buffer
+					_, _ = mk(&plain)
+					rw := &recWriter{mode: 3}
+					_, _ = mk(rw)
+					if len(rw.calls) != 1 || !bytes.Equal(rw.calls[0], plain.Bytes()) {
+						orc = append(orc, fmt.Sprintf("C12:bytes handed to the destination changed while the destination was printing: %q vs %q", rw.calls, plain.Bytes()))
 					}
 				}
 				emit(Case{Real: fmt.Sprintf("history of %d calls, pool fresh=%v", nh, st.Fresh), Oracle: orc, Nontriv: nh > 0, Kind: "history"})
